@@ -34,6 +34,21 @@ func ribCase(name string, cfg *RibCfg, steps []Step) *CaseSpec {
 			}
 		}
 		return RunRibHistory(name, cfg, sub)
+	}, Inputs: func() []string {
+		o := []string{fmt.Sprintf("rib.new %s fwd=%s", S(cfg.Pools.NIs[0]), B(cfg.Fwd))}
+		for _, s := range steps {
+			switch s.Kind {
+			case "add", "del":
+				o = append(o, "rib."+s.Kind+" "+Describe(s.Op, s.Cls).Enc()+" # "+prototextLine(s.Op))
+			case "flush":
+				o = append(o, "rib.flush "+LS(s.NIs))
+			case "addni":
+				o = append(o, "rib.addni "+S(s.NI))
+			default:
+				o = append(o, "rib."+s.Kind)
+			}
+		}
+		return o
 	}}
 }
 
